@@ -16,6 +16,8 @@ EXPLANATION = (
 
 
 def run(model, rep, tier):
+    from ..aggr import Reader as _R
+    _R.MODEL = model
     rep.explanation = EXPLANATION
     A = rep.attempt
     A(r_all, model, rep)
@@ -201,6 +203,8 @@ def r_all(model, rep):
                 if core[2] != ("const", ""):
                     break
                 rc = [c for c in core[3] if c not in conds]
+                if core[3] == ("always",):
+                    rc = [("if", "''in set")]      # a set difference removes the element exactly when it is present
                 if not (len(rc) == 1 and rc[0][0] == "if" and rc[0][1].replace('"', "'").replace(" ", "").startswith("''in")):
                     ok = False
                     rep.violation("R3", "system.System.rail_rep", "%s:%d" % (rel, line), "the empty text is removed from the warning set under %s, expected: when it is present" % ([c[1] for c in rc] or "no condition"), "empty removal condition")
